@@ -519,6 +519,27 @@ def check_k6(ctx, rep, f):
                     cal.name, b, u(cal.defaults[b]), own_bounds[0], u(f.defaults[own_bounds[0]]), u(cal.defaults[b])))
     if len(calls) < 1:
         return 1 if omitted else 0
+    # the bound that reaches the enumerations is the bound the checker was given: a parameter that is re-bound to
+    # something possibly smaller (min(..), a difference, a value that does not mention it) before the call makes the
+    # comparison stop short of the documented bound
+    for (c0, btxt, b0) in calls:
+        if isinstance(b0, ast.Name) and b0.id in f.params:
+            for st in walk_no_nested(f.node):
+                tg = None
+                if isinstance(st, ast.Assign) and len(st.targets) == 1 and isinstance(st.targets[0], ast.Name) and st.targets[0].id == b0.id:
+                    tg = st.value
+                if isinstance(st, ast.AugAssign) and isinstance(st.target, ast.Name) and st.target.id == b0.id:
+                    tg = st.value if isinstance(st.op, (ast.Sub, ast.FloorDiv, ast.Div)) else None
+                    if tg is None:
+                        continue
+                if tg is None or st.lineno > c0.lineno:
+                    continue
+                shrinks = isinstance(st, ast.AugAssign) or any(isinstance(x, ast.Call) and isinstance(x.func, ast.Name) and x.func.id == 'min' for x in ast.walk(tg)) \
+                    or any(isinstance(x, ast.BinOp) and isinstance(x.op, (ast.Sub, ast.FloorDiv)) for x in ast.walk(tg)) or b0.id not in names_in(tg)
+                if shrinks:
+                    rep.violates(RULE + '.K6', f, st, 'the bound parameter `{0}` is replaced by `{1}` before the language of the answer is enumerated: words longer than the new value and up to the bound of the exercise are never compared, so an answer that is wrong only there gets OK'.format(b0.id, u(tg)[:80]))
+                    return 1
+                rep.undecided(RULE + '.K6', f, st, 'the bound parameter {} is re-bound before use'.format(b0.id))
     bounds = {b for _, b, _ in calls}
     if len(bounds) > 1:
         rep.violates(RULE + '.K6', f, calls[0][0], 'the compared languages are generated with different bounds: {}'.format(', '.join(sorted(bounds))))
